@@ -123,6 +123,27 @@ theorem aggregate_sound (types votes : List Nat) (corr : List Rat) :
 example : aggregateVotes [7, 5, 7] [2, 0, 1] [3 / 2, 0, 1 / 4] = ([0, 3], [0, 7 / 4], [5, 7]) := by
   decide +kernel
 
+/-- "casts one vote for the child that contains the leaf": tally followed by the
+    (optional) aggregation — every column `choose_node` works on holds exactly the
+    number of iterations whose nearest leaf belongs to that column's child (and,
+    when aggregated, the correlation sum of exactly those iterations). -/
+theorem child_votes_are_iterations (types : List Nat) (rows : List (Nat × Rat))
+    (h : ∀ r ∈ rows, r.1 < types.length) :
+    (∀ k, k < (columns types (tallyCell types.length rows).1
+        (tallyCell types.length rows).2).1.length →
+      (columns types (tallyCell types.length rows).1 (tallyCell types.length rows).2).1.getD k 0 =
+        (rows.filter (fun r => types.getD r.1 0 ==
+          (columns types (tallyCell types.length rows).1
+            (tallyCell types.length rows).2).2.2.getD k 0)).length) ∧
+    (aggregateVotes types (tallyCell types.length rows).1 (tallyCell types.length rows).2).2.1 =
+      (uniqSorted types).map
+        (fun t => ((rows.filter (fun r => types.getD r.1 0 == t)).map (·.2)).sum) :=
+  ⟨fun k hk => columns_tally types rows h k hk, (aggregate_tally types rows h).2⟩
+
+example : columns [7, 5, 7] (tallyCell 3 [(0, 1), (2, 1 / 2), (1, 1)]).1
+    (tallyCell 3 [(0, 1), (2, 1 / 2), (1, 1)]).2 = ([1, 2], [1, 3 / 2], [5, 7]) := by
+  decide +kernel
+
 /-- "The reported assignment is a child with the most votes, its bootstrapping
     probability is its share of the votes, its average correlation is the mean
     winning correlation over the iterations that voted for it" — for ANY tie
